@@ -718,6 +718,11 @@ def _gc_src():
 
 
 def hex_items(items):
+    items = list(items)
+    return list(core.memo("hex", items, lambda: _hex_items(items)))
+
+
+def _hex_items(items):
     out = []
     _gc_src()
     for it in items:
@@ -772,6 +777,12 @@ def _case_via_table(i, f):
 
 
 def _lower(i, text=True):
+    if isinstance(i, int):
+        return _lower1(i, text)
+    return core.memo("lower%d" % text, [i], lambda: _lower1(i, text))
+
+
+def _lower1(i, text=True):
     r = _case_via_table(i, lambda t: t.lower())
     if r is not None:
         return r
@@ -790,6 +801,12 @@ def _nomodel():
 
 
 def _upper(i, text=True):
+    if isinstance(i, int):
+        return _upper1(i, text)
+    return core.memo("upper%d" % text, [i], lambda: _upper1(i, text))
+
+
+def _upper1(i, text=True):
     r = _case_via_table(i, lambda t: t.upper())
     if r is not None:
         return r
